@@ -53,7 +53,7 @@ class Env:
         except Exception as e:  # noqa
             exc = "%s: %s" % (type(e).__name__, str(e)[:200])
             ishape = tuple(case.ishape) if case.ishape is not None else tuple(1 for _ in case.dims)
-        same = before == digest([[dict(i), i.common, i.shape] for i in idims])
+        same = before == digest([[dict(i), i.common, i.shape] for i in idims]) and (len(held) < 3 or held[2] == digest(held[:2]))
         self.rec.record(prop, case, res, exc, ishape, "ccube", memsame=same,
                         note={"commons": [i.common for i in idims], "explicit_shape": explicit, "note": note},
                         total=cb.total_of(case))
@@ -73,7 +73,7 @@ class Env:
         except Exception as e:  # noqa
             exc = "%s: %s" % (type(e).__name__, str(e)[:200])
             ishape = tuple(case.ishape) if case.ishape is not None else tuple(1 for _ in case.dims)
-        same = before == digest(arrs)
+        same = before == digest(arrs) and (len(held) < 3 or held[2] == digest(held[:2]))
         self.rec.record(prop, case, res, exc, ishape, "xcube", memsame=same,
                         note={"dtype": np.dtype(dtype).name, "explicit_shape": explicit, "note": note},
                         total=cb.total_of(case))
